@@ -2,10 +2,14 @@
    plus case 3: the events of evaluate() on a statement list, according to the plan regenerated from execution.py.
      case 3 ::= (3 (stmt ...))     stmt ::= (kind value? (target ...) id)   kind: 0 Expr, 1 Assign, 2 any other statement
                                    target ::= (0 name) | (1 complex)
-     out    ::= (3 (event ...) ((name value?) ...) (result?))   event ::= (0 e) | (1 id) | (3 t e)              *)
+     out    ::= (3 (event ...) ((name value?) ...) (result?))   event ::= (0 e) | (1 id) | (3 t e)
+   and case 4: the names evaluate(outputs_intermediate=True) reports, according to the symbol plan regenerated from execution.py.
+     case 4 ::= (4 (env ...) env (ostmt ...))   env ::= ((name obj) ...)   contexts outermost first, then global_vars
+                ostmt ::= (0 x src) | (1 x obj) | (2 x) | (3 src)
+     out    ::= (4 (((name obj) ...))) | (4 ())      -- () = CodeError                                               *)
 From Coq Require Import NArith ZArith List Bool.
 Import ListNotations.
-From PG Require Import Common.Tr Gen.PermTable Model.Perm Model.EvalModel Gen.EvalShape.
+From PG Require Import Common.Tr Gen.PermTable Model.Perm Model.EvalModel Gen.EvalShape Model.EvalOut Gen.EvalOut.
 Local Open Scope N_scope.
 
 Definition d_target (t : tr) : option target :=
@@ -32,6 +36,18 @@ Definition e_event (x : ev) : list tr :=
   | EvStoreName _ _ => []
   end.
 
+Definition d_env (t : tr) : option env :=
+  dlist (fun kv => match kv with L [k; v] => do k' <- dN k; do v' <- dN v; Some (k', v') | _ => None end) t.
+
+Definition d_ostmt (t : tr) : option bstmt :=
+  match t with
+  | L [I 0%Z; x; src] => do x' <- dN x; do s' <- dN src; Some (SAssign x' s')
+  | L [I 1%Z; x; o] => do x' <- dN x; do o' <- dN o; Some (SNew x' o')
+  | L [I 2%Z; x] => do x' <- dN x; Some (SDel x')
+  | L [I 3%Z; src] => do s' <- dN src; Some (SExpr s')
+  | _ => None
+  end.
+
 Definition names_of (p : list stmt) : list N := nodup N.eq_dec (flat_map name_targets p).
 
 Definition run (c : tr) : tr :=
@@ -46,6 +62,12 @@ Definition run (c : tr) : tr :=
                eopt eN (last_store result_name evs)]
           else ebad
       | None => ebad
+      end
+  | L [I 4%Z; ctxs; gv; ss] =>
+      match dlist d_env ctxs, d_env gv, dlist d_ostmt ss with
+      | Some cs, Some g, Some p =>
+          L [I 4%Z; eopt (elist (epair eN eN)) (evaluate_out out_plan cs g p)]
+      | _, _, _ => ebad
       end
   | _ => Perm.run_perm c
   end.
